@@ -27,12 +27,35 @@ def padded_faces(mesh, fill=None, dtype=None, width=None):
     return arr
 
 
-def grid_from_mesh(mesh, coord_dtype="float64", **kw):
+LAYOUTS = ["C", "F", "T", "strided"]
+
+
+def with_layout(arr, layout):
+    """The same 2-D table in another memory layout: Fortran order, the transposed view of the (width, n) table (what a
+    reader of a column-major file hands over), or a non-contiguous view into a wider buffer."""
+    if layout == "F":
+        return np.asfortranarray(arr)
+    if layout == "T":
+        return np.ascontiguousarray(arr.T).T
+    if layout == "strided":
+        buf = np.zeros((arr.shape[0], 2 * arr.shape[1]), dtype=arr.dtype)
+        buf[:, ::2] = arr
+        return buf[:, ::2]
+    return arr
+
+
+def grid_from_mesh(mesh, coord_dtype="float64", layout="C", **kw):
     """Standard-form construction through Grid.from_topology (only derivations are under
-    test afterwards).  coord_dtype: storage type of node_lon / node_lat."""
+    test afterwards).  coord_dtype: storage type of node_lon / node_lat; layout: memory layout of the arrays handed
+    over (see with_layout; coordinates become strided views for every layout but "C")."""
     INT_DTYPE, FILL = consts()
     nodes = np.asarray(mesh["nodes"], float).reshape(-1, 2)
-    conn = padded_faces(mesh)
+    conn = with_layout(padded_faces(mesh), layout)
+    if layout != "C":
+        nodes = np.asfortranarray(nodes)  # the columns stay contiguous, the rows do not
+        nodes2 = np.zeros((2 * len(nodes), 2))
+        nodes2[::2] = nodes
+        nodes = nodes2[::2]
     return ux().Grid.from_topology(
         node_lon=nodes[:, 0].astype(coord_dtype), node_lat=nodes[:, 1].astype(coord_dtype), face_node_connectivity=conn, fill_value=FILL, **kw
     )
